@@ -922,6 +922,18 @@ qs_spec("decrypt_packet", [("quic_packet", PKT), ("decryptor", QDEC), ("packet_n
         obj_methods={(QDEC, "decrypt"): dict(lean="dec_decrypt", args=["Option Bytes", "Bytes", "Bytes", "Bool"], ret="Bytes", raises=True)},
         state_calls={"self.set_largest_packet_number": dict(kind="extshared", lean="set_largest_packet_number", args=[PKT, "Bytes"], ret="None"),
                      "self.handle_frame": dict(kind="shared", lean="QS.handle_frame", exts=["handle_crypto_frame"], args=[OUT], ret="None")})
+# the whole method: the three parts above in their order inside the try/except (`join_raises`: an `if` whose branches may raise
+# is one `Res` value, so that the statements after it are rendered once)
+qs_spec("decrypt_packet", [("quic_packet", PKT)],
+        ["handle_crypto_frame", "check_key_epoch", "get_full_packet_number", "set_largest_packet_number", "dec_decrypt", "parse_frames"],
+        maybe_locals={"decryptor": QDEC, "associated_data": "Bytes"}, join_raises=True,
+        drop_calls=["print(e)", "logging.warning(f'Could not decrypt Quic Packet: {quic_packet.dcid}')"],
+        calls={"parse_frames": dict(lean="parse_frames", args=["Bytes", PKT], ret=f"List {OUT}", raises=True)},
+        obj_methods={(QDEC, "decrypt"): dict(lean="dec_decrypt", args=["Option Bytes", "Bytes", "Bytes", "Bool"], ret="Bytes", raises=True)},
+        state_calls={"self.check_key_epoch": dict(kind="extshared", lean="check_key_epoch", args=["Option Nat", "Bool"], ret="None"),
+                     "self.get_full_packet_number": dict(kind="extshared", lean="get_full_packet_number", args=[PKT], ret="Bytes"),
+                     "self.set_largest_packet_number": dict(kind="extshared", lean="set_largest_packet_number", args=[PKT, "Bytes"], ret="None"),
+                     "self.handle_frame": dict(kind="shared", lean="QS.handle_frame", exts=["handle_crypto_frame"], args=[OUT], ret="None")})
 
 THEOREMS = _uniq(theorem_of(s) for s in SPECS)
 
